@@ -622,6 +622,29 @@ fn c14_pass(tier: &str, seed: u64, meta: &str, layout: &'static str) -> Report {
                     rep.fail(json!({"what": what, "layout_file": layout, "other_options": opt_names(others), "events": describe(km, &h),
                         "observed": imp.iter().map(|(t, o)| json!([t, o])).collect::<Vec<_>>(), "expected_final_text": want}));
                 }
+                // the sign waits again after "consonant + hasanta" (it belongs to the whole conjunct): one backspace there
+                // discards it as well, the text stays, and the rest composes like the syllable without a sign
+                if last.onset.len() >= 3 && last.onset[1] == "্" {
+                    let mut h2 = prefix.clone();
+                    h2.push(km.key(last.typewriter()[0]));
+                    h2.push(km.key(last.onset[0]));
+                    h2.push(km.key("্"));
+                    let nb = h2.len();
+                    h2.push(Ev::Back(false));
+                    for v in &last.onset[2..] { h2.push(km.key(v)); }
+                    if last.chandra { h2.push(km.key("ঁ")); }
+                    let imp3 = w.run_impl(bits_on, &h2);
+                    compare(w, km, bits_on, &h2, &imp3, rep, "C14");
+                    let got3 = imp3.last().map(|x| x.0.clone()).unwrap_or_default();
+                    let bad3 = if !imp3[nb - 1].1 { Some("a sign waiting for the rest of its conjunct does not count as an ongoing session") }
+                        else if imp3[nb].0 != imp3[nb - 1].0 || !imp3[nb].1 { Some("one backspace did not discard the sign waiting after consonant + hasanta (the text changed or the session ended)") }
+                        else if got3 != want { Some("after discarding the sign waiting after consonant + hasanta the rest of the word composes differently") }
+                        else { None };
+                    if let Some(what) = bad3 {
+                        rep.fail(json!({"what": what, "layout_file": layout, "other_options": opt_names(others), "events": describe(km, &h2),
+                            "observed": imp3.iter().map(|(t, o)| json!([t, o])).collect::<Vec<_>>(), "expected_final_text": want}));
+                    }
+                }
             }
         }
     });
